@@ -10,6 +10,9 @@ def e2e_oracle(chk, r):
     clamped = abs(H - lim["min_height"]) < 1e-9 or abs(H - lim["max_height"]) < 1e-9
     if not clamped and abs(r["resim_excess"]) > TOL:
         chk.violation("end-to-end", r["cfg"], {"H": H, "excess_at_H": r["resim_excess"]}, "unclamped returned height makes the excess zero within 1e-3")
+    if r.get("pred_excess_at_hmax") is not None and r["pred_excess_at_hmax"] < 0:
+        chk.violation("end-to-end", r["cfg"], {"selected_boreholes": r["nbh"], "preceding_candidate_boreholes": r["pred_nbh"], "its_excess_at_max_height": r["pred_excess_at_hmax"]},
+                      "the candidate immediately preceding the selected one fails at maximum height (evaluated afresh)")
     if "calculated_temperatures" in r and "domain_counts" in r:
         cnts = r["domain_counts"]
         for k, v in r["calculated_temperatures"].items():
@@ -21,7 +24,9 @@ def e2e_oracle(chk, r):
 
 
 def configs(tier):
-    cs = [cfg(), cfg("RECTANGLE"), cfg("BIRECTANGLE", loads={"kind": "heating", "scale": 25000, "seed": 2})]
+    cs = [cfg(), cfg("RECTANGLE"), cfg("BIRECTANGLE", loads={"kind": "heating", "scale": 25000, "seed": 2}), steep_cfg(2300.0, 5),
+          # one borehole suffices, but only near the maximum height (fails at the minimum height, passes at the maximum)
+          cfg(months=12, loads={"kind": "constant", "scale": 5400.0, "seed": 1, "sign": -1.0})]
     if tier != "quick":
         cs += [cfg("BIZONEDRECTANGLE"), cfg("BIRECTANGLECONSTRAINED"),
                cfg("NEARSQUARE", "COAXIAL", loads={"kind": "cooling", "scale": 40000, "seed": 3}),
@@ -29,8 +34,37 @@ def configs(tier):
     return cs
 
 
+def sized_height_is_a_root(chk):
+    """GHE.size on real objects with BOTH time-step methods: the returned height, unless clamped at a bound, makes the excess of a
+    FRESH simulation with that same method zero within the solver tolerance"""
+    rng = chk.rng
+    cases = []
+    for k, (scale, kind, m) in enumerate([(9000.0, "balanced", "hourly"), (7000.0, "cooling", "hybrid")] + ([] if chk.tier == "quick" else [(12000.0, "heating", "hourly"), (8000.0, "spiky", "hourly")])):
+        cases.append({"nx": 1, "ny": 2, "months": 12, "H": 100.0, "heights": [60.0, 97.5, 135.0], "loads": {"kind": kind, "scale": scale, "seed": 11 + k},
+                      "pipe": ["SINGLEUTUBE", "DOUBLEUTUBEPARALLEL"][k % 2], "ops": [["size", m]]})
+    from concurrent.futures import ThreadPoolExecutor
+    with ThreadPoolExecutor(max_workers=NPROC) as ex:
+        rs = list(ex.map(lambda c: run_impl("ghe_drv.py", {"mode": "ops", "cases": [c]}, timeout=1500), cases))
+    for c, rr in zip(cases, rs):
+        if isinstance(rr, dict) and "_error" in rr:
+            chk.broken.append({"name": "real GHE.size run failed in the harness", "detail": rr["_error"][-300:]})
+            continue
+        chk.cov["evaluations"] += 1
+        for rec in rr[0].get("trace", []):
+            if "exc" in rec or rec.get("fresh") is None:
+                chk.notes.append({"size_run": rec.get("exc"), "msg": rec.get("msg")})
+                continue
+            H = rec["H"]
+            exc = max(rec["fresh"][0] - 35.0, 5.0 - rec["fresh"][1])          # build() uses limits 35 / 5 and heights 60..135
+            clamped = abs(H - 60.0) < 1e-9 or abs(H - 135.0) < 1e-9
+            chk.cov["distinct_nontrivial"] = chk.cov.get("distinct_nontrivial", 0)
+            if not clamped and abs(exc) > TOL:
+                chk.violation("ghe-size", c, {"H": H, "method": c["ops"][0][1], "excess_of_a_fresh_simulation_at_H": exc},
+                              "unclamped returned height makes the excess zero within 1e-3 (for the time-step method the sizing was asked for)")
+
+
 def run(chk):
-    return run_search_check(chk, "C05", "C05", configs(chk.tier), e2e_oracle)
+    return run_search_check(chk, "C05", "C05", configs(chk.tier), e2e_oracle, extra=sized_height_is_a_root)
 
 
 def replay(payload):
